@@ -1687,7 +1687,10 @@ class Evaluator:
 
             def build(ds):
                 return [build(ds[1:]) for _ in range(ds[0])] if ds else Rat.const(0)
-            return Arr(build(dims))
+            r_ = Arr(build(dims))
+            if 0 in dims:
+                r_.zshape = tuple(dims)       # the declared shape of an empty array (nested lists cannot carry it)
+            return r_
         if name in ("eye", "identity"):
             k = const_int(args[0])
             if k is None:
